@@ -156,14 +156,57 @@ def tokens_for(f):
     return toks
 
 
+def canonical_leaves(f):
+    """Namespace-prefixed, flattened leaves of a filter, level by level; None if two leaves of one level
+    coincide (e.g. {'a': 1, 'sp.a': 2}: one of the two silently wins, so such a filter has no equivalent
+    spellings to speak of)."""
+    def pref(k):
+        if k in ("sp", "doc") or k.split(".", 1)[0] in ("sp", "doc"):
+            return k
+        return "sp." + k
+
+    def flat(prefix, v, acc):
+        if isinstance(v, dict) and v:
+            for kk, vv in v.items():
+                flat(prefix + "." + kk, vv, acc)
+        else:
+            acc.append((prefix, json.dumps(typed(v), sort_keys=True)))
+
+    leaves, logical = [], []
+    for k, v in f.items():
+        if k in ("$and", "$or"):
+            if not isinstance(v, list):
+                return None
+            subs = [canonical_leaves(x) if isinstance(x, dict) else None for x in v]
+            if any(x is None for x in subs):
+                return None
+            logical.append((k, subs))
+        elif k == "$not":
+            sub = canonical_leaves(v) if isinstance(v, dict) else None
+            if sub is None:
+                return None
+            logical.append((k, sub))
+        else:
+            flat(pref(k), v, leaves)
+    keys = [k for k, _ in leaves]
+    tops = [pref(k) for k in f if k not in ("$and", "$or", "$not")]
+    if len(set(keys)) != len(keys) or len(set(tops)) != len(tops):
+        return None
+    return (leaves, logical)
+
+
 def spellings(f):
     out = [("mapping", f)]
+    canon = canonical_leaves(f)
     for name, fn in (("toggle-prefix", toggle_prefix), ("nested", nest_all), ("dotted", flatten_all)):
+        if canon is None:
+            break
         try:
             g = fn(copy.deepcopy(f))
         except Exception:
             g = None
-        if g is not None and json.dumps(typed(g)) != json.dumps(typed(f)):
+        # a rewrite is used only if it has the same leaves in the same order at every level
+        if g is not None and json.dumps(typed(g)) != json.dumps(typed(f)) and canonical_leaves(g) == canon:
             out.append((name, g))
     if f:
         out.append(("json-token", [json.dumps(f)]))
